@@ -303,6 +303,30 @@ func (gs *groupScen) checkSticky(mg *mgroup, rec *genRecord, owner map[string]st
 			samePartitions = false
 		}
 	}
+	// pairwise swaps within a topic are ruled out whatever else changed (partitions added or gone, subscriptions
+	// changed): both partitions still exist and both members are still there and, having taken a partition of the
+	// topic, subscribed to it
+	{
+		swapped := map[string][2]string{}
+		for key, po := range prevOwner {
+			if co, ok := owner[key]; ok && co != po && inCur[po] {
+				swapped[key] = [2]string{po, co}
+			}
+		}
+		var keys []string
+		for k := range swapped {
+			keys = append(keys, k)
+		}
+		sort.Strings(keys)
+		for i, a := range keys {
+			for _, b := range keys[i+1:] {
+				ta, tb := a[:strings.LastIndex(a, "/")], b[:strings.LastIndex(b, "/")]
+				if ta == tb && swapped[a][0] == swapped[b][1] && swapped[a][1] == swapped[b][0] {
+					r.violate("C13.sticky-swap", "generation %d: %s and %s swapped owners (%s <-> %s) within topic %s (before %s, now %s)", rec.generation, a, b, swapped[a][0], swapped[a][1], ta, fmtPlan(prev), fmtPlan(rec))
+				}
+			}
+		}
+	}
 	if !samePartitions || !sameSubs {
 		return
 	}
@@ -337,20 +361,6 @@ func (gs *groupScen) checkSticky(mg *mgroup, rec *genRecord, owner map[string]st
 		for key, mv := range moved {
 			if inPrev[mv[1]] {
 				r.violate("C13.sticky-moved-on-join", "generation %d: %s joined (identical subscriptions) but %s moved between old members %s -> %s (before %s, now %s)", rec.generation, joined[0], key, mv[0], mv[1], fmtPlan(prev), fmtPlan(rec))
-			}
-		}
-	}
-	// pairwise swaps within a topic
-	var keys []string
-	for k := range moved {
-		keys = append(keys, k)
-	}
-	sort.Strings(keys)
-	for i, a := range keys {
-		for _, b := range keys[i+1:] {
-			ta, tb := a[:strings.LastIndex(a, "/")], b[:strings.LastIndex(b, "/")]
-			if ta == tb && moved[a][0] == moved[b][1] && moved[a][1] == moved[b][0] {
-				r.violate("C13.sticky-swap", "generation %d: %s and %s swapped owners (%s <-> %s) within topic %s", rec.generation, a, b, moved[a][0], moved[a][1], ta)
 			}
 		}
 	}
